@@ -17,9 +17,10 @@ RECURSIVE SumSeqs(_)
 SumSeqs(q) == IF q = <<>> THEN 0 ELSE SumSeq(Head(q)) + SumSeqs(Tail(q))
 ShardOf(d) ==
   IF d.kind = "flat" THEN SumSeq(d.ix) % NShards
+  ELSE IF d.kind = "extra" THEN d.i % NShards
   ELSE (d.subj + d.cs + SumSeqs(d.cb) + SumSeq(d.db)) % NShards
 
-Family == {d \in POFamFlat(MaxParts) \cup POFamPlural(MaxInner) : PODomain(POFamBody(d))} \cup POFamInvalid
+Family == {d \in POFamFlat(MaxParts) \cup POFamPlural(MaxInner) : PODomain(POFamBody(d))} \cup POFamInvalid \cup POFamExtra
 
 Init == pcase \in {d \in Family : ShardOf(d) = Shard}
 Next == UNCHANGED pcase
@@ -37,7 +38,8 @@ CaseRecord(d) ==
   THEN [id |-> POFamId(d), parts |-> body, valid |-> FALSE]
   ELSE LET e == POExtract(m) IN
        [id |-> POFamId(d), parts |-> body, valid |-> TRUE,
-        names |-> PONames(body), phstr |-> PlaceholderString(body), feat |-> MsgFeature(body),
+        names |-> PONames(body), phstr |-> PlaceholderString(body), key |-> MsgKeyString(body),
+        feat |-> MsgFeature(body),
         msgid |-> e.msgid, msgid_plural |-> e.msgid_plural, var |-> e.var,
         tr |-> [l \in 1..Len(LocSeq) |->
                   [loc |-> LocSeq[l], forms |-> POPluralForms(LocSeq[l]),
